@@ -674,6 +674,52 @@ func hashKeyInjective(c *core.Ctx, f *ssa.Function, rule string) {
 			case *ssa.MapUpdate:
 				judge("interning store key", x.Key, core.InstrPos(in))
 				n++
+				// the id handed out for a new encoding: distinct encodings must get distinct ids
+				reached, lossy, unknown := walk(x.Value, map[ssa.Value]bool{})
+				vkey := core.FuncKey(f) + " interned hash value"
+				switch {
+				case reached && lossy != "":
+					c.Bad(rule, vkey, core.InstrPos(in), "the id stored for a new encoding derives from the encoding through "+lossy+", which is not injective: two different declarations get the same hash and are served each other's cached values")
+				case reached && unknown != "":
+					c.Unknown(rule, vkey, core.InstrPos(in), "the id stored for a new encoding derives from it through "+unknown+", which is not in the rule's table of injective steps")
+				case reached:
+					c.OK(rule, vkey, core.InstrPos(in), "injective in the encoding")
+				default:
+					fresh := false
+					var scan func(v ssa.Value, d int)
+					seenV := map[ssa.Value]bool{}
+					scan = func(v ssa.Value, d int) {
+						if v == nil || seenV[v] || d > 8 {
+							return
+						}
+						seenV[v] = true
+						if call, ok := v.(*ssa.Call); ok {
+							if o := core.CalleeObj(call); o != nil && o.Pkg() != nil && (o.Pkg().Path() == "github.com/google/uuid" || o.Pkg().Path() == "crypto/rand") {
+								fresh = true
+							}
+							if cf := call.Call.StaticCallee(); cf != nil && cf.Blocks != nil && core.InRepo(core.FuncPkg(cf)) {
+								for _, rt := range c19Returns(cf) {
+									for _, r := range rt.Results {
+										scan(r, d+1)
+									}
+								}
+							}
+						}
+						if ins, ok := v.(ssa.Instruction); ok {
+							for _, op := range ins.Operands(nil) {
+								if *op != nil {
+									scan(*op, d+1)
+								}
+							}
+						}
+					}
+					scan(x.Value, 0)
+					if fresh {
+						c.OK(rule, vkey, core.InstrPos(in), "a fresh random UUID per new encoding (fixed width, unique)")
+					} else {
+						c.Unknown(rule, vkey, core.InstrPos(in), "the id stored for a new encoding is neither injective in the encoding nor a fresh UUID: uniqueness of the ids (and, for ids of varying width, unambiguity of the composed cache key) is not shown")
+					}
+				}
 			}
 		}
 	}
